@@ -2,7 +2,17 @@
 from facts import walk, callee_of, call_args, loc
 import hirq, anchors, absx
 
-EXPLANATION = ("V1 positional decode (path-sensitive abstract evaluation with a generic attribute and a generic value): the entry must be "
+EXPLANATION = ("V2.value-lists-exact, the function from the value list of an attribute to the two maps, decided by exact literal evaluation: `construct` is "
+               "interpreted on literal entries (element trees; the tree accessors inlined; element vectors, local vectors and the two maps - as association "
+               "lists of known keys - tracked exactly; the UTF-8 tests decided on the literal octets), one per member of a finite partition of value lists: "
+               "0, 1, 2, 3 values, each valid UTF-8 (the empty string, a multi-octet character) or not (an impossible octet, a truncated sequence, a stray "
+               "continuation octet), in every order, plus repeated values, plus entries with two attributes.  Judged is the single outcome: the attribute is "
+               "a key of exactly one map; of `attrs` exactly when every value is valid UTF-8 - an attribute without values included: the unchanged code "
+               "inserts it into `attrs` with an empty vector - with the values, decoded, in order; otherwise of `bin_attrs` with all its values as octets, "
+               "compared as a multiset (the property fixes no order for a non-text attribute; the unchanged code yields the non-UTF-8 values in the order "
+               "received, then the UTF-8 ones in the order received); dn is the objectName sent.  An evaluation that does not end in one outcome with "
+               "known map contents is an alarm (not decided).  "
+               "V1 positional decode (path-sensitive abstract evaluation with a generic attribute and a generic value): the entry must be "
                "tag 4 constructed, child 0 -> dn (UTF-8), child 1 -> attribute list; per attribute child 0 -> type (UTF-8), child 1 -> "
                "value set, each value a primitive; V2 an inductive argument over the values of one attribute, read from the enumerated "
                "paths of one generic iteration of the attribute loop.  What is carried from one value to the next (found by fixpoint) "
@@ -10,7 +20,9 @@ EXPLANATION = ("V1 positional decode (path-sensitive abstract evaluation with a 
                "tested for UTF-8 exactly once, in every state an earlier value can leave behind; if v is UTF-8 its decoded text is added "
                "to the text collection (the vector an iterator chain yields, or a local vector) and nothing else happens; if not, its "
                "bytes are pushed, unaltered, to bin_attrs[type] or to a local vector of binary values, and a flag, if there is one, is "
-               "true afterwards.  Completion (values exhausted, in the state the steps leave behind - this includes no values at all): "
+               "true afterwards.  Completion (values exhausted, in the state the steps leave behind; the attribute without values is decided by "
+               "V2.value-lists-exact - a generic path always has a value at hand, so one that claims the text collection holding that value is empty "
+               "is infeasible, and a path that knows the text collection to be empty may leave out appending it): "
                "if no value failed the only effect is that the text collection is inserted into `attrs` under the attribute type; if "
                "any value failed (flag / non-empty binary vector / v itself) the text collection is appended, as bytes, to "
                "bin_attrs[type], so is a local vector of binary values, and nothing is inserted into `attrs`.  The loop over the "
@@ -35,9 +47,11 @@ EXPLANATION = ("V1 positional decode (path-sensitive abstract evaluation with a 
 # hands `construct` a truncated value and misparses everything after it.  Decided by C07's B2 reader family (which form, how many
 # length octets, their big-endian value by exact literal evaluation for every octet count that occurs, Incomplete while they are missing).
 SHARED = [('C07', ('B7.',), 'V3.every-well-formed-entry-is-parsed'), ('C07', ('B2.reader',), 'V4.value-lengths-are-read-exactly')]
-TRUSTED = ['std iterator adapters (map, filter_map, collect) preserve order', 'HashMap entry API',
+TRUSTED = ['std iterator adapters (map, filter_map, collect) preserve order', 'HashMap entry API (rules/assocmap.py: one model per method, on maps whose keys are literals)',
+           'Python\'s strict UTF-8 decoder accepts exactly the octet strings core::str::from_utf8 accepts',
            'Iterator::{any, all, position, find} apply their predicate to the elements in order until the answer is certain; slice sort* / reverse permute']
-UNDECIDED = ['content equality of values', 'duplicate attribute types within one entry']
+UNDECIDED = ['content equality of values beyond the value lists of the partition (more than three values per attribute, other octet strings: covered by the inductive argument of the '
+             'generic rules only as far as placement goes)', 'duplicate attribute types within one entry']
 ASSUMPTIONS = ['a generic element stands for every element of a `for` / iterator chain (the loop body is the same for all)']
 
 P = 'ldap3::search::SearchEntry::construct'
@@ -269,10 +283,160 @@ def two_phase(ctx, B, paths, outer, S, amap, bmap, is_utf8_test, map_events, is_
     for need in (False, True):
         ctx.add('V2.coverage', 'attribute completed, some value non-UTF-8=%s' % need, root, need in seen, 'no path for this situation')
 
+# ---- V2.value-lists-exact: the function from the value list of an attribute to the two maps, by exact literal evaluation ----------
+# `construct` is interpreted on literal entries (element trees as the TLV parser builds them; the accessors of the tree type are
+# inlined, the element vectors, the local vectors and the two maps - rules/assocmap.py - are tracked exactly, str::from_utf8 /
+# String::from_utf8 / from_utf8_lossy are decided on the literal octets), one entry per member of a finite partition of value lists:
+# 0, 1, 2 and 3 values, each valid UTF-8 or not, in every order - all text, all binary, binary then text, text then binary,
+# text-binary-text, ... -, with the empty string, a multi-octet character, a truncated sequence and repeated values among them.
+# Nothing of the spelling is read: a flag or none, one pass or two, iterator chain or loop, entry() / get_mut() / insert(), a
+# temporary vector or none all come to the one outcome that is judged - what the two maps hold under the attribute's type:
+#   * the attribute is a key of exactly one of the maps;
+#   * of `attrs` exactly when every value is valid UTF-8 - the attribute without values included (the unchanged code inserts it
+#     into `attrs` with an empty vector: no value failed the test) -, and then `attrs` holds the values, decoded, in order;
+#   * otherwise of `bin_attrs`, which then holds ALL its values as octets, each as often as it was sent.  The property fixes no
+#     order there (the unchanged code yields the non-UTF-8 values in the order received followed by the UTF-8 ones in the order
+#     received: [t1, b1, t2] -> [b1, t1, t2]), so the lists of a non-text attribute are compared as multisets.
+# Entries with two attributes decide that what one attribute leaves behind (a flag, a vector, a map entry) does not reach the next.
+T_VALUES = (b'a', b'', b'\xc3\xa9b')            # valid UTF-8: one character, the empty string, a two-octet character and another
+B_VALUES = (b'\xff', b'\xc3', b'a\x80\x00')      # not valid UTF-8: an octet that never occurs, a truncated sequence, a stray continuation octet
+
+def value_lists():
+    import itertools
+    out = []
+    for n in range(4):
+        for kinds in itertools.product('TB', repeat=n):
+            out.append([(T_VALUES if k == 'T' else B_VALUES)[i] for i, k in enumerate(kinds)])
+    out += [[b'a', b'a'], [b'\xff', b'\xff'], [b'a', b'\xff', b'a'], [b'\xff', b'a', b'\xff'], [b''], [b'', b'\xff']]
+    res = []
+    for v in out:
+        if v not in res:
+            res.append(v)
+    return res
+
+def entry_tree(attrs):
+    """SearchResultEntry ::= [APPLICATION 4] SEQUENCE { objectName LDAPDN, attributes SEQUENCE OF SEQUENCE { type, vals SET OF value } }"""
+    import envelope as env
+    return env.cons('Application', 4, [env.prim('Universal', 4, b'cn=x'), env.cons('Universal', 16, [
+        env.cons('Universal', 16, [env.prim('Universal', 4, name), env.cons('Universal', 17, [env.prim('Universal', 4, v) for v in vals])]) for name, vals in attrs])])
+
+def is_utf8(b):
+    try:
+        b.decode('utf-8')
+        return True
+    except UnicodeDecodeError:
+        return False
+
+def show_values(vals):
+    return '[%s]' % ', '.join(("''" if not v else v.hex()) for v in vals)
+
+def held(t, as_text):
+    """the values a vector term of one of the maps holds, as Python strings (attrs) / octet strings (bin_attrs: a String that became
+    a Vec<u8> through into_bytes is its UTF-8 encoding); None when an element is not a known value"""
+    els = absx.listed_elems(t)
+    if els is None:
+        return None
+    out = []
+    for x in els:
+        if x[0] != 'lit':
+            return None
+        if as_text:
+            if not isinstance(x[1], str):
+                return None
+            out.append(x[1])
+        elif isinstance(x[1], str):
+            out.append(x[1].encode('utf-8'))
+        elif isinstance(x[1], bytes):
+            out.append(x[1])
+        else:
+            return None
+    return out
+
+def judge_entry(attrs, outs):
+    """what is wrong with the outcomes of `construct` on the entry with these (type, values) attributes: a list of sentences"""
+    import assocmap
+    rets = [o for o in outs if o.kind in ('val', 'ret')]
+    if len(outs) != 1 or len(rets) != 1:
+        kinds = sorted({'a panic' if o.kind == 'div' else 'an unfinished loop' if o.kind == 'loop' else 'a return' if o.kind in ('val', 'ret') else o.kind for o in outs})
+        if len(outs) == 1 and outs[0].kind == 'div':
+            pe = [e for e in outs[0].st.ev if e[0] == 'panic']
+            return ['`construct` panics on this well-formed entry (%s)' % (pe[-1][1].rsplit('::', 1)[-1] if pe else '?')]
+        return ['not decided: the literal evaluation ends in %d outcomes (%s) instead of one' % (len(outs), ', '.join(kinds) or 'none')]
+    o = rets[0]
+    if o.val[0] != 'struct':
+        return ['not decided: the value returned is not a struct expression (%s)' % absx.fmt(o.val)[:60]]
+    fl = dict(o.val[2])
+    wrong = []
+    if fl.get('dn') != ('lit', 'cn=x'):
+        wrong.append('dn is %s, not the objectName sent (cn=x)' % absx.fmt(fl.get('dn', ('unk',)))[:40])
+    A, Bm = assocmap.contents(o.st, fl.get('attrs', ('unk',))), assocmap.contents(o.st, fl.get('bin_attrs', ('unk',)))
+    if A is None or Bm is None:
+        why = [e for e in o.st.ev if e[0] == 'map-poisoned']
+        return wrong + ['not decided: %s is not a map whose content the evaluation could follow%s' % (
+            ' / '.join(n for n, m in (('attrs', A), ('bin_attrs', Bm)) if m is None), ' (handed to `%s`)' % why[0][2].rsplit('::', 1)[-1] if why else '')]
+    A, Bm = dict(A), dict(Bm)
+    for name, vals in attrs:
+        k = ('lit', name.decode())
+        who = 'the attribute' if len(attrs) == 1 else 'attribute `%s` (values %s)' % (name.decode(), show_values(vals))
+        in_a, in_b = k in A, k in Bm
+        ha = held(A[k], True) if in_a else None
+        hb = held(Bm[k], False) if in_b else None
+        sa = ('attrs holds %s' % (show_values([x.encode() for x in ha]) if ha is not None else absx.fmt(A[k])[:60])) if in_a else ''
+        sb = ('bin_attrs holds %s' % (show_values(hb) if hb is not None else absx.fmt(Bm[k])[:60])) if in_b else ''
+        all_text = all(is_utf8(v) for v in vals)
+        if in_a and in_b:
+            wrong.append('%s is a key of both maps, %s, %s' % (who, sa, sb))
+        elif not in_a and not in_b:
+            wrong.append('%s is a key of neither map: it is lost' % who)
+        elif all_text and in_b:
+            wrong.append('every value of %s is valid UTF-8%s but it is a key of bin_attrs, not of attrs; %s' % (who, ' (it has none)' if not vals else '', sb))
+        elif not all_text and in_a:
+            wrong.append('%s has a value that is not valid UTF-8 but is a key of attrs, not of bin_attrs; %s' % (who, sa))
+        elif all_text:
+            if ha != [v.decode('utf-8') for v in vals]:
+                wrong.append('%s: attrs must hold its values, decoded, in the order sent; %s' % (who, sa))
+        else:
+            if hb is None or sorted(hb) != sorted(vals):
+                wrong.append('%s: bin_attrs must hold all its values as octets, each as often as sent (in any order); %s' % (who, sb))
+    extra = [absx.fmt(k) for k in list(A) + list(Bm) if k not in [('lit', n.decode()) for n, _v in attrs]]
+    if extra:
+        wrong.append('the maps hold keys that are no attribute type of the entry: %s' % ', '.join(extra)[:80])
+    return wrong
+
+def exact_value_lists(ctx, f, B):
+    import assocmap
+    inl = lambda c: c.startswith('lber::structure::') or c.startswith('<lber::structure::') or c.startswith('lber::common::')
+    def construct(attrs):
+        I = absx.Interp(f, B, summaries=[assocmap.summary], unroll=8, inline=inl, combinators=True, places=True, local_try=True)
+        I.exact_seqs = True
+        env = I.param_env()
+        params = [b for b, v in env.items() if v[0] == 'param']
+        if len(params) != 1:
+            return None
+        env[params[0]] = ('ctor', 'ResultEntry', (entry_tree(attrs), ('vec', ())))
+        return I.run(env=env)
+    n = 0
+    cases = [[(b'a', vals)] for vals in value_lists()]
+    cases += [[(b'a', [b'\xff']), (b'b', [b'x'])], [(b'a', [b'x']), (b'b', [b'\xff'])], [(b'a', [b'x', b'\xff']), (b'b', [b'\xfe', b'y'])],
+              [(b'a', [b'\xff', b'x']), (b'b', [])], [(b'a', []), (b'b', [b'\xff'])], [(b'a', [b'x']), (b'b', [b'y', b'z'])]]
+    for attrs in cases:
+        outs = construct(attrs)
+        if outs is None:
+            ctx.fail('V2.value-lists-exact', 'entry parameter', loc(B.root), '`construct` does not take the one entry it decodes as its only parameter; not decidable here')
+            return
+        wrong = judge_entry(attrs, outs)
+        n += 1
+        inst = 'values %s' % show_values(attrs[0][1]) if len(attrs) == 1 else 'attributes %s' % ', '.join('%s %s' % (a.decode(), show_values(v)) for a, v in attrs)
+        ctx.add('V2.value-lists-exact', inst, loc(B.root), not wrong,
+                '%s: %s' % (inst, '; '.join(wrong)) +
+                ' - every attribute must be a key of exactly one map: of `attrs` (values as text, in order) exactly when all its values are valid UTF-8, otherwise of `bin_attrs` (all its values as octets)')
+    ctx.floor('V2.value-lists-exact', 'entries `construct` was interpreted on', n, 20)
+
 def run(ctx):
     f = ctx.facts
     B = hirq.Body(f, f.body(P))
     ctx.analysed['bodies'].add(P)
+    exact_value_lists(ctx, f, B)
     # every loop is entered from the states its back edge can carry (flags exactly, local vectors as an unknown prefix); a path ends
     # where it reaches a back edge ('loop'), so the paths through the attribute loop are one generic iteration of it
     I = absx.Interp(f, B, unroll=1, for_once=False, result_combinators=True, combinators=True)
@@ -399,6 +563,29 @@ def run(ctx):
     def keyed(t):
         """the place t inside bin_attrs is the entry of the attribute's type"""
         return any(x[1].rsplit('::', 1)[-1] in ('entry', 'get_mut') and len(x[2]) >= 2 and x[2][0] == bmap and is_type(x[2][1]) for x in absx.leaves(t, lambda x: x[0] == 'call'))
+
+    def fresh_slot(t, m):
+        """t is the place `m.entry(type).or_default()` / `.or_insert_with(Vec::new)` / `.or_insert(vec![])` yields: the vector the map m
+        holds under the attribute's type, created empty when the type has none yet"""
+        if t[0] != 'call' or not t[2] or t[2][0][0] != 'call' or short(t[2][0]) != 'entry' or len(t[2][0][2]) != 2 or t[2][0][2][0] != m or not is_type(t[2][0][2][1]):
+            return False
+        n = short(t)
+        return (n == 'or_default' and len(t[2]) == 1) or (n == 'or_insert' and len(t[2]) == 2 and t[2][1] == ('vec', ())) \
+            or (n == 'or_insert_with' and len(t[2]) == 2 and t[2][1][0] == 'fn' and t[2][1][1].endswith(('alloc::vec::Vec::<T>::new', 'core::default::Default>::default')))
+    def placed_in_attrs(A):
+        """the collection that the events A on `attrs` make the value of the attribute's type, or None: `attrs.insert(type, X)`, or
+        `attrs.entry(type).or_default().extend(X)` - the same map for an entry whose attribute types are distinct (the property's
+        well-formed entries; what a second attribute of the same type does is not decided, see UNDECIDED): the vector is created
+        empty and X appended to it"""
+        muts = [e for e in A if short(e) in MUTATORS]
+        if len(muts) != 1 or any(short(e) not in ACCESSORS for e in A if e not in muts):
+            return None
+        e = muts[0]
+        if short(e) == 'insert' and len(A) == 1 and len(e[2]) == 3 and e[2][0] == amap and is_type(e[2][1]):
+            return e[2][2]
+        if short(e) in ('extend', 'append') and len(e[2]) == 2 and fresh_slot(e[2][0], amap):
+            return e[2][1]
+        return None
 
     def lossy_source(lvl, v):
         """why a value of the attribute may never reach the sequence lvl (whose element, or its primitive content, is v): between the
@@ -537,7 +724,15 @@ def run(ctx):
                             'a vector that collects values is handed to `%s`: it may lose or reorder what it holds; not decidable here' % short(e))
 
     # ---- pass 2, the completions: what the maps receive when the values of the attribute are exhausted
-    seen = set()
+    def tested_for_emptiness(pc):
+        """the terms whose emptiness / length the path condition talks about"""
+        out = []
+        for a, _t in pc:
+            for c in absx.leaves(a, lambda x: x[0] == 'call' and x[1].rsplit('::', 1)[-1] in ('is_empty', 'len') and len(x[2]) == 1):
+                if c[2][0] not in out:
+                    out.append(c[2][0])
+        return out
+    seen, infeasible = set(), 0
     for o in paths:
         d = info[id(o)]
         if not d['ok']:
@@ -563,12 +758,6 @@ def run(ctx):
         any_bin = True if is_text is False else E
         sit = ('%s value, ' % ('UTF-8' if is_text else 'non-UTF-8') if is_text is not None else 'values exhausted, ') + \
               ('an earlier value was non-UTF-8' if E else 'no earlier non-UTF-8 value' if E is False else 'earlier values unknown')
-        if not A and not [e for e in Bm if short(e) in MUTATORS]:
-            ctx.fail('V2.attribute-stored', 'generic attribute', loc(B.root), 'on some path an attribute is stored in neither map'); continue
-        if any_bin is None:
-            ctx.fail('V2.mixed-attribute-moves-text-to-bin_attrs', sit, loc(B.root),
-                     'the attribute is completed on a path that does not know whether one of its values was not UTF-8'); continue
-        seen.add(('complete', any_bin))
         test = d.get('test')
         def text_vector(t, test=test, is_text=is_text):
             """the collection of text values: filter_map/map over the value set whose element is the decoded v (or skipped when v is not
@@ -578,9 +767,28 @@ def run(ctx):
             return test is not None and t[0] == 'many' and values_src_ok(t[1]) and t[3] == (('variant', test[1], test[2], 0) if is_text else ('skip',))
         def as_bytes(t, pred):
             return pred(t) or (t[0] == 'many' and t[3] == t[2] and pred(t[1]))
-        inserts = [e for e in A if short(e) == 'insert']
+        # what the path has found out about the text collection being empty (`is_empty()`, `len()` against 0): a collection that holds
+        # the decoded text of the generic value v is not empty, whatever else it holds - a path that claims so is taken for no value
+        # list at all; and appending an empty collection changes nothing, so a path that knows the text collection to be empty may
+        # leave that append out
+        text_empty = None
+        for X in tested_for_emptiness(o.st.pc):
+            if text_vector(X) or as_bytes(X, text_vector):
+                claim = emptiness(o.st.pc, X)
+                if claim is not None:
+                    text_empty = claim
+        if text_empty and is_text:
+            infeasible += 1
+            continue
+        if not A and not [e for e in Bm if short(e) in MUTATORS]:
+            ctx.fail('V2.attribute-stored', 'generic attribute', loc(B.root), 'on some path an attribute is stored in neither map'); continue
+        if any_bin is None:
+            ctx.fail('V2.mixed-attribute-moves-text-to-bin_attrs', sit, loc(B.root),
+                     'the attribute is completed on a path that does not know whether one of its values was not UTF-8'); continue
+        seen.add(('complete', any_bin))
         if not any_bin:
-            ok = len(inserts) == 1 and len(A) == 1 and not Bm and inserts[0][2][0] == amap and len(inserts[0][2]) == 3 and is_type(inserts[0][2][1]) and text_vector(inserts[0][2][2])
+            placed = placed_in_attrs(A)
+            ok = placed is not None and not Bm and text_vector(placed)
             ctx.add('V2.all-text-attribute-goes-to-attrs', sit, loc(B.root), ok,
                     'the vector of decoded values must be inserted into `attrs` under the attribute type, and nothing into bin_attrs: attrs %s, bin_attrs %s' % (
                         [short(e) for e in A], [short(e) for e in Bm]))
@@ -589,10 +797,12 @@ def run(ctx):
         okx = all(short(e) in ('extend', 'append') and len(e[2]) == 2 and keyed(e[2][0]) for e in muts)
         texts = [e for e in muts if okx and as_bytes(e[2][1], text_vector)]
         bins = [e for e in muts if okx and binb in vecs and e[2][1] == o.st.env.get(binb)]
-        okx = okx and len(texts) == 1 and len(bins) == (1 if binb in vecs else 0) and len(muts) == len(texts) + len(bins)
+        okx = okx and (len(texts) == 1 or (text_empty and not texts)) and len(bins) == (1 if binb in vecs else 0) and len(muts) == len(texts) + len(bins)
         ctx.add('V2.mixed-attribute-moves-text-to-bin_attrs', sit, loc(B.root), okx and not A,
                 'once any value of the attribute is not UTF-8, the text values collected (and the binary ones, if collected apart) must be appended (as bytes) to bin_attrs[type] and the '
                 'attribute must not appear in `attrs`: attrs %s, bin_attrs %s' % ([short(e) for e in A], [short(e) for e in Bm]))
+    if infeasible:
+        ctx.note('%d generic paths claim that a text collection holding the value at hand is empty: infeasible' % infeasible)
     for need in (('text', False), ('binary', False), ('text', True), ('binary', True)):
         ctx.add('V2.coverage', '%s value, earlier binary=%s' % need, loc(B.root), need in seen, 'no path for this situation')
     for need in (False, True):
